@@ -30,7 +30,9 @@ def decorate(R, lines):
             sec = l.strip()
         # non-ASCII text where the grammar lets any character through: label names / flavours, sys entries, HTTP software
         if k == "label" and R.random() < 0.3:
-            l = l.rstrip() + R.choice(["\u00e9", "\u00df\u65e5\u672c", "\u00fc-\u0416", " ;old", " ;-) x", "\t; y", " #1"])
+            l = l.rstrip() + R.choice(["\u00e9", "\u00df\u65e5\u672c", "\u00fc-\u0416", " ;old", " ;-) x", "\t; y", " #1",
+                                       # text that Unicode normalisation / case folding would rewrite: it is kept as written
+                                       "e\u0301", "\u2126", "\uf900", "A\u030a", "\ufb01", "\u1e9e", "\u0130", "\u212a"])
         elif k == "sys" and R.random() < 0.3:
             l = l.rstrip() + R.choice([",B\u00fcro", ",\u65e5\u672c", "\u00e9"])
         elif k == "sig" and sec.startswith("[http") and R.random() < 0.2 and l.count(":") == 3:
